@@ -620,13 +620,18 @@ func (s *Store[K, V]) removeEntry(entry *Entry[K, V], reason RemoveReason) {
 	_, index := s.index(entry.key)
 	shard := s.shards[index]
 
+	locked := false
 	if reason == EXPIRED {
 		// entry might updated already
-		// update expire filed are protected by shard mutex
+		// update expire filed are protected by shard mutex: take it here and keep it
+		// until the map slot is removed, so that a new ttl can't slip in between
 		if verifOn {
 			verifAt(VpRecheck, s, entry, nil, int64(reason))
 		}
+		shard.mu.Lock()
+		locked = true
 		if entry.expire.Load() > s.timerwheel.clock.NowNano() {
+			shard.mu.Unlock()
 			if verifOn {
 				verifAt(VpRecheckAbort, s, entry, nil, int64(reason))
 			}
@@ -668,7 +673,9 @@ func (s *Store[K, V]) removeEntry(entry *Entry[K, V], reason RemoveReason) {
 				}
 			}
 		}
-		shard.mu.Lock()
+		if !locked {
+			shard.mu.Lock()
+		}
 		deleted := shard.delete(entry)
 		if verifOn {
 			verifAt(VpMapRemoved, s, entry, nil, int64(reason), verifB(deleted))
